@@ -96,6 +96,11 @@ func gridGeneric[T safemath.Integer](k kind) (hits []gridHit, evals int64) {
 			var my []gridHit
 			var n int64
 			z, gotB := new(big.Int), new(big.Int)
+			sl := newSlot()
+			prefix := map[string]string{}
+			for _, op := range []string{"add", "sub", "mul", "div", "shl"} {
+				prefix[op] = "safe " + op + " " + k.name
+			}
 			check := func(op string, x, y *big.Int, call func() (T, error), exact *big.Int, dz bool) {
 				n++
 				var v T
@@ -107,7 +112,9 @@ func gridGeneric[T safemath.Integer](k kind) (hits []gridHit, evals int64) {
 							got = "panic"
 						}
 					}()
+					sl.enter(&callDesc{prefix: prefix[op], x: x, y: y})
 					v, err = call()
+					sl.leave()
 				}()
 				if got == "" {
 					got = errClass(err)
@@ -191,6 +198,7 @@ func grid64() (hits []gridHit, evals int64) {
 			var my []gridHit
 			var n int64
 			z, p := new(big.Int), new(big.Int)
+			sl := newSlot()
 			judge := func(fn, line string, k kind, got string, v *big.Int, exact *big.Int, dz bool) {
 				n++
 				want := "ok"
@@ -207,7 +215,9 @@ func grid64() (hits []gridHit, evals int64) {
 			for i := w; i < len(gu); i += gridWorkers {
 				x := gu[i]
 				for _, y := range gu {
+					sl.enter(&callDesc{prefix: "mulu64", x: x, y: y})
 					v, err := safemath.SafeMulUint64(x.Uint64(), y.Uint64())
+					sl.leave()
 					judge("SafeMulUint64", "mulu64 "+x.String()+" "+y.String(), ku, errClass(err), new(big.Int).SetUint64(v), z.Mul(x, y), false)
 					p.Mul(x, y)
 					hiW, loW := new(big.Int).Rsh(p, 64), new(big.Int).And(p, mask)
@@ -226,7 +236,9 @@ func grid64() (hits []gridHit, evals int64) {
 									got = "panic"
 								}
 							}()
+							sl.enter(&callDesc{prefix: "muldiv", x: x, y: y, z: d})
 							v, err = safemath.Safe64MulDiv(x.Uint64(), y.Uint64(), d.Uint64())
+							sl.leave()
 						}()
 						if got == "" {
 							got = errClass(err)
@@ -243,7 +255,9 @@ func grid64() (hits []gridHit, evals int64) {
 			for i := w; i < len(gi); i += gridWorkers {
 				x := gi[i]
 				for _, y := range gi {
+					sl.enter(&callDesc{prefix: "muli64", x: x, y: y})
 					v, err := safemath.SafeMulInt64(x.Int64(), y.Int64())
+					sl.leave()
 					judge("SafeMulInt64", "muli64 "+x.String()+" "+y.String(), ki, errClass(err), big.NewInt(v), z.Mul(x, y), false)
 				}
 			}
